@@ -18,7 +18,14 @@ SPEC = {
              "value of each of the first 8 (quick) / 32 (thorough) bytes and the grid byte0 (256) x byte1 (6 / 32 boundary values), accepted "
              "buffers only; and a default object after one call of every public small-value setter of the generated setter table (bool, "
              "integers, small_uint<N>, enums; inherited ones included), argument swept over the whole domain up to 8 (quick) / 16 (thorough) "
-             "bits, per-byte and single-bit boundary values above. "
+             "bits, per-byte and single-bit boundary values above; the quick-tier domain also AFTER every T was looked up on the object (look up, "
+             "mutate, look up again). ORIGIN / HISTORY: for every (K, B) of the generated slice table (K concrete, B a non-abstract "
+             "copy-constructible public PDU base of K: 45 pairs) and every K onto itself, o = default K that was looked up {never, for every T, "
+             "for exactly one plain T (same-class: thorough only)}; result = B sliced(o), B assigned = o, clone() of the sliced copy, "
+             "move-construction of it (and o itself for B = K); every plain T on the result, oracle = its dynamic type. EMPTY STATES "
+             "(generated): every public constructor that takes (pointer, length) / string / container / iterator pair handed nothing, every "
+             "container or string setter given an empty value, every non-const container getter cleared (also on an object looked up before), "
+             "each alone and as innermost layer of IP/UDP/x, all seven helpers, every T. "
              "Signatures: wrongtype:<search|cast>:<K>-as-<T> (a wrong flag table entry / override), notfound:<search>:<T>, and "
              "wrapper-alias:<search|cast>:<kind> for the one root cause 'PDUCacher<X> carries X's flag' (only when, after unwrapping "
              "wrapper(s), the object really is what was asked for). evaluations = (chain, T) pairs, each with all 7 helpers; "
@@ -26,8 +33,9 @@ SPEC = {
     "claim": ("All (K, T) pairs of the generated table and all chains of up to 2 (quick) / 3 (thorough) layers over K are evaluated with "
               "every look-up and cast helper; the table cannot miss a class present in the headers."),
     "note": ("Trusted: clang's AST dump and dynamic_cast/RTTI as ground truth, UBSan vptr check as corroboration only. Object states: default, "
-             "factory-built, own-constructor-from-swept-buffer, one-setter-call (distinct_state_identities = #classes shows that identity "
-             "does not depend on state); states needing two or more setter calls or bytes beyond the swept prefix are not enumerated. "
+             "factory-built, own-constructor-from-swept-buffer, one-setter-call (with / without earlier look-ups), sliced / assigned / cloned / "
+             "moved copies of looked-up objects, empty states (distinct_state_identities = state_classes shows that identity depends neither "
+             "on state nor on history); states needing two or more setter calls or bytes beyond the swept prefix are not enumerated. "
              "Not covered: user-defined PDU classes, PDUCacher<PDUCacher<X>>, find_pdu called with an explicit flag argument."),
     "assumptions": ["ground truth for 'really is a T' is dynamic_cast<T*> (RTTI of the build under test)",
                     "classes = what clang's AST shows for a TU including every header below include/tins with the baseline config.h",
